@@ -5,6 +5,7 @@ import (
 	"fmt"
 	"io"
 	"sync"
+	"sync/atomic"
 	"testing"
 	"time"
 
@@ -102,7 +103,31 @@ func dwaBytes(hbh, e2e, resultCode uint32) []byte {
 			{Code: 296, Flags: 0x40, Payload: []byte("example")}}, false)
 }
 
+// The scenario runs on the library's real timers (25 / 30 ms): on a starved machine the handshake
+// budget or an answer budget can run out although the peer answered in time (seen in a thorough
+// run with 16 shards at load 80: "handshake timeout", and a connection the watchdog had already
+// given up when the first channel was requested). A verdict must therefore reproduce: a defect
+// fails the same case every time, a stall does not. Non-reproducing failures are counted.
+var extraDWATimingDiscards int64
+
 func runExtraDWA(c ExtraDWACase) *ev.Failure {
+	f := runExtraDWAOnce(c)
+	if f == nil {
+		return nil
+	}
+	for i := 0; i < 2; i++ {
+		time.Sleep(100 * time.Millisecond)
+		f2 := runExtraDWAOnce(c)
+		if f2 == nil {
+			atomic.AddInt64(&extraDWATimingDiscards, 1)
+			return nil
+		}
+		f = f2
+	}
+	return f
+}
+
+func runExtraDWAOnce(c ExtraDWACase) *ev.Failure {
 	if pre := leakedIn(2 * time.Second); pre != "" {
 		return ev.Failf("goroutine-leak-after-earlier-case", "a goroutine the library started for a connection of an EARLIER case is still alive (that connection had terminated):\n%s", pre)
 	}
@@ -238,8 +263,8 @@ func runExtraDWA(c ExtraDWACase) *ev.Failure {
 		if bf != nil {
 			return bf
 		}
-		if !isOpen(ch) {
-			return ev.Failf("closed-early", "a CloseNotify channel requested right after the handshake is closed already")
+		if !isOpen(ch) && !closedEarly() {
+			return ev.Failf("closed-early", "a CloseNotify channel requested right after the handshake is closed already although the transport is open")
 		}
 		mu.Lock()
 		appCh = ch
@@ -476,4 +501,8 @@ func TestC14ExtraWatchdogAnswers(t *testing.T) {
 	})
 }
 
-func TestC14ExtraWatchdogAnswersRandom(t *testing.T) { extraDWAProp.Check(t, 15, 1500) }
+func TestC14ExtraWatchdogAnswersRandom(t *testing.T) {
+	rec := extraDWAProp.Rec(t)
+	t.Cleanup(func() { rec.Count("inconclusive-timing-discarded", atomic.LoadInt64(&extraDWATimingDiscards)) })
+	extraDWAProp.Check(t, 15, 1500)
+}
